@@ -1668,17 +1668,39 @@ class Machine:
         n = f.get('rpath') or f.get('path')
         self.opaque_calls[n] = self.opaque_calls.get(n, 0) + 1
 
+    def mut_args(self, cfg, args, t):
+        """indices of the arguments through which the callee can write: `&mut` / `*mut` by the static type of the operand
+        (a fat `&mut [T]` is a Slice value here, not a Ref), or a Ref known to be mutable"""
+        fr = cfg.stack[-1]
+        out = []
+        ops = (t or {}).get('args') or []
+        for k, a in enumerate(args):
+            if isinstance(a, Ref) and a.mut:
+                out.append(k)
+                continue
+            if k < len(ops):
+                pl = ops[k].get('move') or ops[k].get('copy') if isinstance(ops[k], dict) else None
+                if pl is not None:
+                    ty = self.local_ty(fr, pl)
+                    if ty.get('k') in ('ref', 'ptr') and ty.get('mut'):
+                        out.append(k)
+        return out
+
     def opaque_result(self, cfg, f, args, t):
         st = cfg.st
+        muts = self.mut_args(cfg, args, t)
         # havoc memory reachable through &mut arguments
-        for a in args:
-            if isinstance(a, Ref) and a.mut:
+        for k in muts:
+            a = args[k]
+            if isinstance(a, Ref):
                 self.write_path(st, a.key, a.path, Atom(fresh('havoc')))
+            elif isinstance(a, Slice) and a.base is not None:
+                self.write_path(st, a.base.key, a.base.path, Atom(fresh('havoc:' + (f.get('rpath') or f.get('path') or '?').split('::')[-1])))
         fr = cfg.stack[-1]
         dty = self.local_ty(fr, t['dest']) if t else None
         nm = f.get('rpath') or f.get('path')
         st.events.append(('CALL', nm, tuple(args)))
-        if not any(isinstance(a, Ref) and a.mut for a in args):
+        if not muts:
             # pure call: deterministic name so that independent runs agree
             name = '%s(%s)' % (nm.split('::')[-1], ','.join(self.short_name(st, a) for a in args))
             if dty and ty_range(dty.get('s', '')):
@@ -1704,7 +1726,7 @@ class Machine:
 
     def opaque_call(self, cfg, f, args, dest, ret_bb, t):
         n = f.get('rpath') or f.get('path')
-        pure = not any(isinstance(a, Ref) and a.mut for a in args)
+        pure = not self.mut_args(cfg, args, t)
         cfg.st.flags.add(('purecall:' if pure else 'opaque:') + n)
         self.note_opaque(f)
         val = self.opaque_result(cfg, f, args, t)
